@@ -62,6 +62,9 @@ pub struct MapCfg {
     /// put Cutoff::Never on the input variable(s): rewriting an equal map still reaches the operator
     #[serde(default)]
     pub input_never: bool,
+    /// the consumer of the operator keeps a clone of the last output it saw
+    #[serde(default)]
+    pub hold_snapshot: bool,
 }
 
 trait Conv: Value {
@@ -191,10 +194,24 @@ impl Calls {
     }
 }
 
-fn generic_op<M>(input: &Incr<M>, op: Op, calls: &Rc<Calls>) -> Incr<B>
+/// Conversion of an operator's output to the reference map type. With `hold`, the consumer
+/// keeps a clone of the last output it saw (as a caller keeping `observer.value()` would), so
+/// the operator's previous output is shared when it next recomputes.
+fn conv_out<O: Conv + Clone + 'static>(hold: bool) -> impl FnMut(&O) -> B + 'static {
+    let mut keep: Option<O> = None;
+    move |o: &O| {
+        if hold {
+            keep = Some(o.clone());
+        }
+        let _ = &keep;
+        o.to_b()
+    }
+}
+
+fn generic_op<M>(input: &Incr<M>, op: Op, calls: &Rc<Calls>, hold: bool) -> Incr<B>
 where
     M: Conv + SymmetricFoldMap<i64, i64> + SymmetricMapMap<i64, i64>,
-    M::OutputMap<i64>: Conv,
+    M::OutputMap<i64>: Conv + Clone + 'static,
 {
     let c = calls.clone();
     match op {
@@ -205,25 +222,25 @@ where
                 c.hit(i64::MIN, "f");
                 f_map(*v)
             })
-            .map(|o| o.to_b()),
+            .map(conv_out(hold)),
         Op::FilterMap => input
             .incr_filter_map(move |v: &i64| {
                 c.hit(i64::MIN, "f");
                 f_filter(*v)
             })
-            .map(|o| o.to_b()),
+            .map(conv_out(hold)),
         Op::Mapi => input
             .incr_mapi(move |k: &i64, v: &i64| {
                 c.hit(*k, "f");
                 f_mapi(*k, *v)
             })
-            .map(|o| o.to_b()),
+            .map(conv_out(hold)),
         Op::FilterMapi => input
             .incr_filter_mapi(move |k: &i64, v: &i64| {
                 c.hit(*k, "f");
                 f_filter_mapi(*k, *v)
             })
-            .map(|o| o.to_b()),
+            .map(conv_out(hold)),
         Op::Fold { update, revert, set } => {
             let (c1, c2, c3) = (calls.clone(), calls.clone(), calls.clone());
             let add = move |acc: i64, k: &i64, v: &i64| {
@@ -366,6 +383,7 @@ pub fn gen_plan(prop: &str, seed: u64) -> Plan {
     let init0 = rand_map(&mut r);
     let init1 = rand_map(&mut r);
     let input_never = r.chance(1, 4);
+    let hold_snapshot = r.chance(1, 3);
     let n_actions = r.range(8, 45) as usize;
     let mut acts = vec![XAct::Observe { out: 0 }, XAct::Stabilise];
     let two = matches!(op, Op::Merge);
@@ -388,7 +406,7 @@ pub fn gen_plan(prop: &str, seed: u64) -> Plan {
     acts.push(XAct::Stabilise);
     acts.push(XAct::Stabilise);
     let knobs = Knobs { hash_seed: sched.next(), tie_break: if sched.chance(25, 100) { Some(sched.next()) } else { None }, max_height: None, crash_at: None, dense_reads: true, audit: true, stop_on: String::new() };
-    Plan { engine: "map".into(), actions: acts.into_iter().map(Action::X).collect(), knobs, extra: serde_json::json!({ "prop": prop, "cfg": MapCfg { ty, op, init0, init1, input_never } }) }
+    Plan { engine: "map".into(), actions: acts.into_iter().map(Action::X).collect(), knobs, extra: serde_json::json!({ "prop": prop, "cfg": MapCfg { ty, op, init0, init1, input_never, hold_snapshot } }) }
 }
 
 struct Vars {
@@ -507,19 +525,19 @@ pub fn run_on_this_thread(plan: &Plan, keep_trace: bool) -> RunOutput {
             }
             (MapTy::BTree, op) => {
                 let (a, b) = (state.var(cur[0].clone()), state.var(cur[1].clone()));
-                let o = generic_op::<B>(&a.watch(), op, &calls);
+                let o = generic_op::<B>(&a.watch(), op, &calls, cfg.hold_snapshot);
                 vars.b = Some((a, b));
                 o
             }
             (MapTy::RcBTree, op) => {
                 let a: Var<Rc<B>> = state.var(Rc::new(cur[0].clone()));
-                let o = generic_op::<Rc<B>>(&a.watch(), op, &calls);
+                let o = generic_op::<Rc<B>>(&a.watch(), op, &calls, cfg.hold_snapshot);
                 vars.rc = Some(a);
                 o
             }
             (MapTy::Ord, op) => {
                 let (a, b): (Var<OrdMap<i64, i64>>, Var<OrdMap<i64, i64>>) = (state.var(Conv::from_b(&cur[0])), state.var(Conv::from_b(&cur[1])));
-                let o = generic_op::<OrdMap<i64, i64>>(&a.watch(), op, &calls);
+                let o = generic_op::<OrdMap<i64, i64>>(&a.watch(), op, &calls, cfg.hold_snapshot);
                 vars.ord = Some((a, b));
                 o
             }
